@@ -62,8 +62,11 @@ TEMPLATES = {
 }
 XCORR = {"title": "c1", "id": rid(101), "name": "corr1", "correlation": {"type": "temporal", "timespan": "5m", "group-by": ["user"], "condition": "rule1 and (rule2 or not rule3)"}}
 TEMPLATES["j-extended-no-rules-list"] = [plain(1), plain(2), plain(3), XCORR, corr(2, ["corr1"])]
+# generation asked for in the middle of a chain: the inner rules are referenced with generation only, the middle rule without
+TEMPLATES["k-generate-in-chain"] = [plain(1), plain(2), corr(1, ["rule1", "rule2"], generate=True, ctype="temporal"), corr(2, ["corr1"]), plain(3)]
+TEMPLATES["l-generate-outer-of-chain"] = [plain(1), corr(1, ["rule1"]), corr(2, ["corr1"], generate=True), corr(3, ["corr2"]), plain(2)]
 TEMPLATES["i-seven"] = TEMPLATES["d-depth3"] + [corr(4, ["rule2", "corr1"], generate=True, ctype="temporal")]
-QUICK = ["d-depth3", "a-by-name", "b-by-id", "c-corr-of-corr", "e-generate-mix", "e2-generate-all", "f-missing", "g-multi-condition", "h-two-on-one", "j-extended-no-rules-list"]
+QUICK = ["d-depth3", "a-by-name", "b-by-id", "c-corr-of-corr", "e-generate-mix", "e2-generate-all", "f-missing", "g-multi-condition", "h-two-on-one", "j-extended-no-rules-list", "k-generate-in-chain", "l-generate-outer-of-chain"]
 THOROUGH = QUICK + ["i-seven"]
 
 
